@@ -71,6 +71,16 @@ type scriptSpec struct {
 	// budget, the rest are served by overflow goroutines.
 	QueueExpiry   int `json:"queue_expiry,omitempty"`
 	QueueExpiryAt int `json:"queue_expiry_at_ms,omitempty"`
+	// PoisonBursts > 0: that many tight, unpaced bursts (spread over the load
+	// phase from PoisonFrom ms on) in which ordinary clients' queries for names
+	// asked earlier (cache hits when the universe is honest) are interleaved
+	// with poison queries — well-formed queries from sources the kernel
+	// refuses to send a reply to (poison.go). See planPoison.
+	PoisonBursts int `json:"poison_bursts,omitempty"`
+	PoisonFrom   int `json:"poison_from_ms,omitempty"`
+	// Poison marks a script whose purpose is the poison bursts (its other
+	// traffic is only the warm-up and background).
+	Poison bool `json:"poison_script,omitempty"`
 	Seed     uint64    `json:"seed"`
 }
 
@@ -86,7 +96,7 @@ func baseScripts() []scriptSpec {
 	return []scriptSpec{
 		{Name: "honest", Tweaks: envTweaks{ZoneServers: zs(1, 2, 3, 2)},
 			Zone: faultMix{Honest: 1, TCPAnswer: 1}, TLD: faultMix{Honest: 1, TCPAnswer: 1},
-			Patterns: []patternWeight{{"burst-same", 2}, {"distinct-zone", 2}, {"repeat", 4}, {"pipeline", 2}, {"closers", 1}}, Junk: 12, Iso: 1},
+			Patterns: []patternWeight{{"burst-same", 2}, {"distinct-zone", 2}, {"repeat", 4}, {"pipeline", 2}, {"closers", 1}}, Junk: 12, Iso: 1, PoisonBursts: 8},
 		{Name: "drop", Tweaks: envTweaks{ZoneServers: zs(1, 2, 3, 1, 2, 3)},
 			Zone: faultMix{Honest: 4, Drop: 6, TCPAnswer: 1, TCPStall: 1}, TLD: faultMix{Honest: 3, Drop: 1, DelayShort: 2, TCPAnswer: 1}, Iso: 1},
 		{Name: "delay", Tweaks: envTweaks{ZoneServers: zs(1, 2, 3, 1, 2, 3)},
@@ -94,11 +104,11 @@ func baseScripts() []scriptSpec {
 		{Name: "tc-tcp", Tweaks: envTweaks{ZoneServers: zs(1, 2, 3, 1, 2)},
 			Zone: faultMix{Honest: 3, TC: 7, TCPAnswer: 2, TCPStall: 3, TCPReset: 3}, TLD: faultMix{Honest: 3, TC: 2, DelayShort: 2, TCPAnswer: 2, TCPStall: 1, TCPReset: 1}, Iso: 1},
 		{Name: "garbage", Tweaks: envTweaks{ZoneServers: zs(1, 2, 3, 2)},
-			Zone: faultMix{Honest: 1, WrongID: 3, WrongQ: 3, Malformed: 3, Other: 2, TCPAnswer: 1}, TLD: faultMix{Honest: 2, WrongID: 1, WrongQ: 1, Malformed: 1, DelayShort: 2, TCPAnswer: 1}, Junk: 8, Iso: 1},
+			Zone: faultMix{Honest: 1, WrongID: 3, WrongQ: 3, Malformed: 3, Other: 2, TCPAnswer: 1}, TLD: faultMix{Honest: 2, WrongID: 1, WrongQ: 1, Malformed: 1, DelayShort: 2, TCPAnswer: 1}, Junk: 8, Iso: 1, PoisonBursts: 5},
 		{Name: "rcodes", Tweaks: envTweaks{ZoneServers: zs(1, 2, 3, 3)},
 			Zone: faultMix{Honest: 3, ServFail: 4, Refused: 4, TCPAnswer: 1}, TLD: faultMix{Honest: 3, ServFail: 1, Refused: 1, DelayShort: 2, TCPAnswer: 1}, Iso: 1},
 		{Name: "everything", Tweaks: envTweaks{ZoneServers: zs(1, 2, 3, 1, 2, 3), QnameMin: true},
-			Zone: allKinds, TLD: faultMix{Honest: 3, Drop: 1, DelayShort: 3, DelayLong: 1, TC: 1, ServFail: 1, TCPAnswer: 2, TCPStall: 1, TCPReset: 1}, Iso: 1},
+			Zone: allKinds, TLD: faultMix{Honest: 3, Drop: 1, DelayShort: 3, DelayLong: 1, TC: 1, ServFail: 1, TCPAnswer: 2, TCPStall: 1, TCPReset: 1}, Iso: 1, PoisonBursts: 5},
 		{Name: "small-maxconcurrent", Tweaks: envTweaks{ZoneServers: zs(2, 3, 2), MaxConcurrent: 4},
 			Zone: faultMix{Honest: 3, Drop: 4, DelayShort: 3, DelayLong: 2, TCPAnswer: 1}, TLD: faultMix{Honest: 2, DelayShort: 2, TCPAnswer: 1},
 			Patterns: []patternWeight{{"distinct-zone", 5}, {"burst-same", 2}, {"spread", 2}, {"closers", 1}}, Iso: 1},
@@ -118,7 +128,33 @@ func baseScripts() []scriptSpec {
 		{Name: "closers-slow-walk", Tweaks: envTweaks{ZoneServers: zs(1, 2, 3, 1, 2, 3, 2, 2), QnameMin: true},
 			Zone: faultMix{Honest: 3, Drop: 3, DelayShort: 3, TC: 1, TCPAnswer: 1, TCPStall: 1}, TLD: faultMix{DelayShort: 6, Honest: 1, Drop: 1, TCPAnswer: 1},
 			Patterns: []patternWeight{{"closers", 4}, {"burst-same", 3}, {"distinct-zone", 2}, {"pipeline", 1}}, Iso: 2},
+		// ---- poison scripts (appended: the indices above key PRNG streams).
+		// Honest universe, so every burst question is a cache hit and the
+		// replies of one receive batch leave as ONE transmit burst; few server
+		// sockets (the low-memory plan opens 4 instead of one per CPU) and one
+		// or two workers, so that both the readers' inline bursts and the
+		// workers' bursts really hold several replies.
+		{Name: "poison-mixed", Tweaks: envTweaks{ZoneServers: zs(1, 2, 2), TinyMemory: true, IngressWorkers: 1, IngressQueue: 64},
+			Zone: faultMix{Honest: 1, TCPAnswer: 1}, TLD: faultMix{Honest: 1, TCPAnswer: 1},
+			Waves: 7, WaveSize: 24, Patterns: []patternWeight{{"distinct-zone", 3}, {"repeat", 3}, {"spread", 2}, {"burst-same", 1}},
+			PoisonBursts: 40, PoisonFrom: 450, Poison: true},
+		{Name: "poison-mixed-v6", Tweaks: envTweaks{ZoneServers: zs(2, 1), ListenV6: true, TinyMemory: true, IngressWorkers: 2, IngressQueue: 64},
+			Zone: faultMix{Honest: 1, TCPAnswer: 1}, TLD: faultMix{Honest: 1, TCPAnswer: 1},
+			Waves: 7, WaveSize: 24, Patterns: []patternWeight{{"distinct-zone", 3}, {"repeat", 3}, {"spread", 2}, {"burst-same", 1}},
+			PoisonBursts: 40, PoisonFrom: 450, Poison: true},
 	}
+}
+
+// nBaseScripts counts the scripts of a list that are not dedicated poison
+// scripts (the Require minimums of the general counters are per such script).
+func nBaseScripts(list []scriptSpec) int64 {
+	n := int64(0)
+	for _, s := range list {
+		if !s.Poison {
+			n++
+		}
+	}
+	return n
 }
 
 // scriptList returns the scripts of this run: rounds × base list, each with
@@ -292,6 +328,20 @@ type planned struct {
 	group  int // queries of one group share a pipelined connection (pattern "pipeline")
 	closeMs int // closers: close the socket this long after sending
 	noPace  bool // written back-to-back on one socket, no pacing (one receive batch)
+	burst   int  // > 0: member of that poison burst (plan.bursts[burst-1]); the whole burst is written back-to-back
+	sock    int  // burst members: index of the pooled client socket that sends it
+}
+
+// burstPlan is one poison burst: its members in SEND ORDER (ordinary queries
+// and poison datagrams interleaved; the first is always an ordinary query).
+type burstPlan struct {
+	ID      int    `json:"id"`
+	AtMs    int    `json:"at_ms"`
+	Shape   string `json:"shape"`   // one-client | many-clients
+	Flavour string `json:"flavour"` // inline (plain: answered from the wire cache on the reader) | worker (ECS option: declined inline, answered by a worker) | mixed
+	Good    int    `json:"good"`
+	Poison  int    `json:"poison"`
+	seq     []*planned
 }
 
 type plan struct {
@@ -299,6 +349,7 @@ type plan struct {
 	// sameBursts lists, per burst of identical questions, the indices of its
 	// members (evidence: followers observed).
 	sameBursts [][]int
+	bursts     []*burstPlan
 }
 
 func pickPattern(rng *rand.Rand, ps []patternWeight) string {
@@ -319,8 +370,9 @@ func pickPattern(rng *rand.Rand, ps []patternWeight) string {
 var qtypes = []uint16{dns.TypeA, dns.TypeA, dns.TypeA, dns.TypeAAAA, dns.TypeTXT}
 
 // buildPlan derives the whole query list of a script from its PRNG stream.
-func buildPlan(rng *rand.Rand, sp *scriptSpec, nZones int) *plan {
+func buildPlan(rng, prng *rand.Rand, sp *scriptSpec, nZones int, v6 bool) *plan {
 	pl := &plan{}
+	firstAt := map[*qrec]int{} // when each planned query is sent (ms into the load phase)
 	nameSeq := 0
 	fresh := func(zone int) string {
 		nameSeq++
@@ -332,6 +384,7 @@ func buildPlan(rng *rand.Rand, sp *scriptSpec, nZones int) *plan {
 		q := &qrec{Idx: len(pl.items), Wave: wave, Pattern: pattern, Tr: tr, Name: name, Qtype: qtype}
 		p := &planned{q: q, atMs: atMs}
 		pl.items = append(pl.items, p)
+		firstAt[q] = atMs
 		return p
 	}
 	transport := func() string {
@@ -444,8 +497,16 @@ func buildPlan(rng *rand.Rand, sp *scriptSpec, nZones int) *plan {
 		p := add(sp.Waves, "junk", fmt.Sprintf("junk%d.z0.test.", i), dns.TypeA, "udp", rng.IntN(sp.Waves*sp.WaveGap+1))
 		p.q.Junk = kind
 	}
+	// poison bursts: drawn from their own PRNG stream, so the plan above is the
+	// same with and without them
+	if sp.PoisonBursts > 0 && prng != nil {
+		planPoison(prng, sp, pl, asked, firstAt, v6)
+	}
 	for _, p := range pl.items {
 		q := p.q
+		if p.burst != 0 {
+			continue // built by planPoison
+		}
 		q.pkt = buildQuery(q.Name, q.Qtype, 0, q.CD, q.Idx%5 != 0)
 		switch q.Junk {
 		case "qr-set":
@@ -455,6 +516,110 @@ func buildPlan(rng *rand.Rand, sp *scriptSpec, nZones int) *plan {
 		}
 	}
 	return pl
+}
+
+// planPoison adds sp.PoisonBursts bursts to the plan. A burst is a list of
+// datagrams written back-to-back by one goroutine (no pacing), so that the
+// server's receive batches — and therefore its transmit bursts — mix ordinary
+// clients with poison sources:
+//
+//	shape one-client    4..10 queries from ONE client socket, 4..10 poison
+//	                    queries from that many distinct forged sources
+//	shape many-clients  16..32 queries spread over all pooled client sockets,
+//	                    3..8 poison queries from one or two forged sources
+//
+// (the listener is a reuseport group: the kernel steers a datagram by the hash
+// of its addresses and ports, which the harness cannot compute — many sources
+// against one client, and many clients against one source, both make sure that
+// some poison shares a server socket with ordinary queries). Every question is
+// one asked at least 350 ms earlier, i.e. a cache hit when the universe is
+// honest. Flavour: plain queries are answered from the wire cache on the
+// reader (its inline transmit burst); queries carrying an EDNS Client Subnet
+// option are declined inline and answered by a worker (the worker's burst).
+// The send order is a random interleaving that starts with an ordinary query.
+func planPoison(prng *rand.Rand, sp *scriptSpec, pl *plan, asked []*qrec, firstAt map[*qrec]int, v6 bool) {
+	span := sp.Waves * sp.WaveGap
+	from := sp.PoisonFrom
+	if from <= 0 {
+		from = 500
+	}
+	if span <= from {
+		span = from + 1000
+	}
+	gap := (span - from) / sp.PoisonBursts
+	if gap < 40 {
+		gap = 40
+	}
+	srcSeq := prng.IntN(20000)
+	for b := 0; b < sp.PoisonBursts; b++ {
+		at := from + b*gap + prng.IntN(gap/4+1)
+		var cands []*qrec
+		for _, o := range asked {
+			if firstAt[o]+350 <= at {
+				cands = append(cands, o)
+			}
+		}
+		shapeDraw, flavourDraw := prng.IntN(2), prng.IntN(3)
+		nGood, nPoison := 4+prng.IntN(7), 4+prng.IntN(7)
+		sockBase, nSrc := prng.IntN(64), nPoison
+		shape := "one-client"
+		if shapeDraw == 1 {
+			shape = "many-clients"
+			nGood, nPoison = 16+prng.IntN(17), 3+prng.IntN(6)
+			nSrc = 1 + prng.IntN(2)
+		}
+		if len(cands) == 0 {
+			continue // nothing asked long enough ago: no cache hit to ride on
+		}
+		bp := &burstPlan{ID: len(pl.bursts) + 1, AtMs: at, Shape: shape, Flavour: [...]string{"inline", "worker", "mixed"}[flavourDraw], Good: nGood, Poison: nPoison}
+		// send order: a shuffle of G × good + P × poison, first one good
+		kinds := make([]bool, nGood+nPoison) // true = poison
+		for i := 0; i < nPoison; i++ {
+			kinds[i] = true
+		}
+		prng.Shuffle(len(kinds), func(i, j int) { kinds[i], kinds[j] = kinds[j], kinds[i] })
+		for i, k := range kinds {
+			if !k {
+				kinds[0], kinds[i] = kinds[i], kinds[0]
+				break
+			}
+		}
+		srcs := make([]int, nSrc)
+		for i := range srcs {
+			srcSeq += 1 + prng.IntN(7)
+			srcs[i] = srcSeq
+		}
+		g, ps := 0, 0
+		for _, isPoison := range kinds {
+			o := cands[prng.IntN(len(cands))]
+			ecs := flavourDraw == 1 || (flavourDraw == 2 && prng.IntN(2) == 0)
+			q := &qrec{Idx: len(pl.items), Wave: -3, Pattern: "poison-burst", Tr: "udp", Name: o.Name, Qtype: o.Qtype, ECS: ecs, Burst: bp.ID}
+			p := &planned{q: q, atMs: at, burst: bp.ID, noPace: true}
+			if isPoison {
+				kind := poisonPort0
+				if !v6 && prng.IntN(5) == 0 {
+					kind = poisonUnroutable
+				}
+				q.Poison = kind
+				ip, port := poisonSource(kind, v6, srcs[ps%nSrc])
+				q.Src = ip.String()
+				q.PoisonPort = port
+				q.ID = uint16(1 + prng.IntN(65535))
+				ps++
+			} else {
+				if shape == "one-client" {
+					p.sock = sockBase
+				} else {
+					p.sock = sockBase + g
+				}
+				g++
+			}
+			q.pkt = buildQueryOpt(q.Name, q.Qtype, q.ID, false, true, ecs)
+			pl.items = append(pl.items, p)
+			bp.seq = append(bp.seq, p)
+		}
+		pl.bursts = append(pl.bursts, bp)
+	}
 }
 
 func zoneOfName(name string) string {
